@@ -156,15 +156,15 @@ func init() {
 			LVals:  map[string]string{"r.err": "rerr", "r.curChunk": "cur"},
 			ErrNil: "Z.eqb 0",
 			Hints: map[string]string{
-				"copy(b, r.curChunk)":                "(Z.min b cur)",
-				"len(b)":                             "b",
-				"len(r.remainingChunks)":             "rem_chunks",
-				"r.hasMoreFragments":                 "more",
+				"copy(b, r.curChunk)":               "(Z.min b cur)",
+				"len(b)":                            "b",
+				"len(r.remainingChunks)":            "rem_chunks",
+				"r.hasMoreFragments":                "more",
 				"r.recvAndParseNextFragment(false)": "recv_err",
-				"nil":                                "0",
-				"io.EOF":                             "12",
-				"slice:b":                            "len",
-				"slice:r.curChunk":                   "len",
+				"nil":                               "0",
+				"io.EOF":                            "12",
+				"slice:b":                           "len",
+				"slice:r.curChunk":                  "len",
 			}},
 	}...)
 }
